@@ -163,6 +163,10 @@ def check_class_wrapper(kind: int, keep: bool, trips: int, a: int, b: int, x: in
         return False
     if inst.a != ref.a or inst.method(x) != ref.method(x) or inst._keep_wrapper != bool(keep):
         return False
+    # 'obey the same rule': an instance built by the wrapped class is callable iff instances of the class are, and
+    # calls are forwarded - before any round trip, not only after one (finding F14)
+    if callable(inst) != callable(ref) or (callable(ref) and inst(x) != ref(x)):
+        return False
     cur = inst
     for _ in range(trips):
         cur = pickle.loads(pickle.dumps(cur))
@@ -196,7 +200,18 @@ def check_repickle_after_mutation(kind: int, keep: bool, x: int, delta: int) -> 
     second = pickle.loads(pickle.dumps(w))
     if not _same_behaviour(second, ref, x, "a") or not _same_behaviour(second, ref, x, "method"):
         return False
-    return first.a == old_a and isinstance(second, CloudpickledObjectWrapper) == bool(keep)
+    if first.a != old_a or isinstance(second, CloudpickledObjectWrapper) != bool(keep):
+        return False
+    if keep:
+        # the same on the receiving side: a wrapper that arrived still wrapped is a live view too - after its
+        # object changed there, sending it on carries the new state, not the bytes it arrived as (seed r7_C16)
+        first._obj.a = old_a + 10 * delta
+        onward = pickle.loads(pickle.dumps(first))
+        if not isinstance(onward, CloudpickledObjectWrapper) or onward.a != old_a + 10 * delta:
+            return False
+        if onward.method(x) != first._obj.method(x):
+            return False
+    return True
 
 
 def _toplevel(x):
